@@ -208,6 +208,7 @@ where
         estimate: bool,
         write_set: &mut HashSet<LocationAndType>,
     ) {
+        vpoint!(MV_PUBLISH);
         write_set.insert(location.clone());
         self.mv_memory
             .entry(location)
@@ -220,6 +221,7 @@ where
         address: Address,
         code_hash: B256,
     ) -> Result<Bytecode, DB::Error> {
+        vpoint!(MV_READ);
         let mut result = None;
         let mut read_version = ReadVersion::Storage;
         let location = LocationAndType::Code(address);
@@ -253,6 +255,7 @@ where
     type Error = DB::Error;
 
     fn basic(&mut self, address: Address) -> Result<Option<AccountInfo>, Self::Error> {
+        vpoint!(MV_READ);
         let mut result = None;
         if self.beneficiary.matches(address) {
             let location = LocationAndType::Basic(address);
@@ -314,6 +317,7 @@ where
     }
 
     fn storage(&mut self, address: Address, index: U256) -> Result<U256, Self::Error> {
+        vpoint!(MV_READ);
         let reset_location = LocationAndType::StorageReset(address);
         let mut reset_version = ReadVersion::Storage;
         let mut reset_txid = None;
